@@ -83,6 +83,13 @@ Theorem C02_whole_command_decider_sound : forall i o, check_cmd i o = true -> Cm
 Proof. exact CommandProof.decider_sound. Qed.
 Print Assumptions C02_whole_command_decider_sound.
 
+(* a history with a cycle is refused by every command whatever the target (C15 inside the command), nothing runs *)
+Theorem C02_cyclic_history_refused : forall i G0,
+  has_colon (c_target i) = false -> intern0 (c_revs i) = Some G0 -> wf_refs G0 -> cyclic (all_down G0) ->
+  run_command i = CFail R.CmdRevision [] (c_rows i).
+Proof. exact CommandProof.cyclic_refused. Qed.
+Print Assumptions C02_cyclic_history_refused.
+
 Definition ex_cmd : cmd_in :=
   mkCmd [R.mkS [97;49;98;50;99]%N [] [] []; R.mkS [98;50;99;51;100]%N [[97;49;98;50;99]%N] [] [[108;97;98;48]%N]; R.mkS [99;51;100;52;101]%N [[97;49;98;50;99]%N] [] []; R.mkS [100;52;101;53;102]%N [[98;50;99;51;100]%N; [99;51;100;52;101]%N] [] []; R.mkS [101;53;102;54;97]%N [] [[98;50;99;51;100]%N] []]
         [([98;50;99;51;100]%N, [100;52;101;53;102]%N)] [] [[100;52;101;53;102]%N; [101;53;102;54;97]%N] false [99;51;100;52;101]%N.
